@@ -169,6 +169,7 @@ type Exec struct {
 
 	// happens-before oracle
 	objs     map[uintptr]*objState
+	pools    map[uintptr][]poolItem
 	shadow   map[uintptr]*cell
 	races    []Race
 	raceSeen map[string]bool
@@ -217,6 +218,7 @@ func newExec(horizon int) *Exec {
 		mainWake: make(chan struct{}, 1),
 		horizon:  horizon,
 		objs:     map[uintptr]*objState{},
+		pools:    map[uintptr][]poolItem{},
 		shadow:   map[uintptr]*cell{},
 		raceSeen: map[string]bool{},
 	}
